@@ -1,0 +1,56 @@
+//go:build verif
+
+package config
+
+// Contracts for the verifier in /verif (comment-only; see /verif/DESIGN.md §3).
+
+//@ axiom [config-globals]: defaultValidator != nil && ErrUpstreamNotFound != nil && ErrLocationNotFound != nil && ErrCacheNotFound != nil && ErrCompressNotFound != nil
+//@ pred hasUpstream(c *PikeConfig, name string) := exists i int :: 0 <= i && i < len(c.Upstreams) && c.Upstreams[i].Name == name
+//@ pred hasLocation(c *PikeConfig, name string) := exists i int :: 0 <= i && i < len(c.Locations) && c.Locations[i].Name == name
+//@ pred hasCache(c *PikeConfig, name string) := exists i int :: 0 <= i && i < len(c.Caches) && c.Caches[i].Name == name
+//@ pred hasCompress(c *PikeConfig, name string) := exists i int :: 0 <= i && i < len(c.Compresses) && c.Compresses[i].Name == name
+//@ pred serverOK(c *PikeConfig, s ServerConfig) := (forall j int :: 0 <= j && j < len(s.Locations) ==> hasLocation(c, s.Locations[j]))
+//@      && (s.Cache == "" || hasCache(c, s.Cache)) && (s.Compress == "" || hasCompress(c, s.Compress))
+
+// an accepted configuration is closed under references
+//@ func (c *PikeConfig) Validate() (err error)
+//@   requires [recv] c != nil
+//@   nopanic
+//@   ensures [upstreams] err == nil ==> forall i int :: 0 <= i && i < len(c.Locations) ==> hasUpstream(c, c.Locations[i].Upstream)
+//@   ensures [servers]   err == nil ==> forall i int :: 0 <= i && i < len(c.Servers) ==> serverOK(c, c.Servers[i])
+//@   loop 0: modifies nothing
+//@   loop 0: invariant [idx]  -1 <= $idx && $idx < len(c.Locations)
+//@   loop 0: invariant [done] forall k int :: 0 <= k && k <= $idx ==> hasUpstream(c, c.Locations[k].Upstream)
+//@   loop 1: modifies nothing
+//@   loop 1: invariant [idx]   -1 <= $idx && $idx < len(c.Upstreams)
+//@   loop 1: invariant [found] found <==> exists k int :: 0 <= k && k <= $idx && c.Upstreams[k].Name == l.Upstream
+//@   loop 2: modifies nothing
+//@   loop 2: invariant [idx]  -1 <= $idx && $idx < len(c.Servers)
+//@   loop 2: invariant [done] forall k int :: 0 <= k && k <= $idx ==> serverOK(c, c.Servers[k])
+//@   loop 3: modifies nothing
+//@   loop 3: invariant [idx]  -1 <= $idx && $idx < len(s.Locations)
+//@   loop 3: invariant [locs] forall j int :: 0 <= j && j <= $idx ==> hasLocation(c, s.Locations[j])
+//@   loop 4: modifies nothing
+//@   loop 4: invariant [idx]  -1 <= $idx && $idx < len(c.Locations)
+//@   loop 4: invariant [notfound] notFound <==> !(exists k int :: 0 <= k && k <= $idx && c.Locations[k].Name == item)
+//@   loop 5: modifies nothing
+//@   loop 5: invariant [idx]  -1 <= $idx && $idx < len(c.Caches)
+//@   loop 5: invariant [found] foundCache <==> (s.Cache == "" || exists k int :: 0 <= k && k <= $idx && c.Caches[k].Name == s.Cache)
+//@   loop 6: modifies nothing
+//@   loop 6: invariant [idx]  -1 <= $idx && $idx < len(c.Compresses)
+//@   loop 6: invariant [found] foundCompress <==> (s.Compress == "" || exists k int :: 0 <= k && k <= $idx && c.Compresses[k].Name == s.Compress)
+
+//@ pred closed(c *PikeConfig) := (forall i int :: 0 <= i && i < len(c.Locations) ==> hasUpstream(c, c.Locations[i].Upstream))
+//@      && (forall i int :: 0 <= i && i < len(c.Servers) ==> serverOK(c, c.Servers[i]))
+
+// the configuration client (file or etcd) is an external dependency
+//@ func (cl Client) Set(data []byte) (err error)
+//@   trusted
+//@   nopanic
+
+// a configuration reaches the client only after it validated
+//@ func Write(config *PikeConfig) (err error)
+//@   requires [config] config != nil
+//@   requires [client] defaultClient != nil
+//@   modifies config.Version
+//@   precall github.com/vicanso/pike/config.Client.Set#0 [validated] closed(config)
